@@ -226,9 +226,12 @@ def run_config(chk, facts, cfg):
                       "container, no pointer-to-integer cast in write-fonts / klippa")
     FORBID = re.compile(r"^(std::time::|std::env::|std::thread::current|std::thread::Thread|rand::|std::process::id|"
                         r"std::hash::random::RandomState::new|std::hash::random::DefaultHasher|<std::hash::random::RandomState as core::hash::BuildHasher>::hash_one|"
-                        r"core::hash::BuildHasher::hash_one|std::time::SystemTime|std::time::Instant)")
+                        r"core::hash::BuildHasher::hash_one|std::time::SystemTime|std::time::Instant|"
+                        # observations of where bytes sit in memory: the result of splitting / testing by address alignment
+                        r"core::slice::<impl \[T\]>::align_to(_mut)?$|bytemuck::(internal::)?(try_)?pod_align_to(_mut)?$|"
+                        r"core::ptr::(const_ptr|mut_ptr)::<impl \*(const|mut) T>::(align_offset|is_aligned|is_aligned_to)$)")
     ncalls = 0
-    for c in SCOPE:
+    for c in SCOPE + ("read_fonts", "font_types"):      # the compilers call into the readers (checksums, tables being copied)
         if c not in facts.crates:
             continue
         for b in facts.all_bodies(c):
@@ -238,7 +241,7 @@ def run_config(chk, facts, cfg):
                     allowed_dot = "graphviz" in b.file or b.path.endswith("Graph::write_graph_viz")
                     chk.ob("C07-d", f"{b.path} calls {t.callee}", allowed_dot, why="debug rendering to a .dot file (feature dot2), not font bytes",
                            key=f"forbid|{b.path}|{t.callee}", file=b.file, line=t.line, fn=b.path,
-                           detail="observation of time / environment / randomness in a compilation path")
+                           detail="observation of time / environment / randomness / memory address alignment in a compilation path")
     from ..ptrtaint import PtrTaint
     pt = PtrTaint(facts, [c for c in facts.crates])
     for b, st, res in pt.run():
